@@ -73,6 +73,11 @@ def steady_state_transport_solver(
         2D or 3D field of kinematic flux at levels or footprint.
     """
 
+    # halo to deal with periodicity of FFT
+    # (resolved before the cache lookup so that lookup and store agree on the key)
+    if halo is None:
+        halo = max(domain)
+
     # Check cache for footprint mode
     if cache is not None and footprint:
         # everything besides the base key that determines the result
@@ -112,10 +117,6 @@ def steady_state_transport_solver(
         levels = np.array([levels])
 
     nlvls = len(levels)
-
-    # halo to deal with periodicity of FFT
-    if halo is None:
-        halo = max(xmx, ymx)
 
     # pad width
     px = int(halo / dx)
